@@ -134,7 +134,7 @@ def gen_num(e, d):
     if c == 15:
         return '%s(%s, %s)' % (r.choice(['min', 'max']), gen_num(e, d - 1), gen_num(e, d - 1))
     if c == 16:
-        f = r.choice(['round', 'floor', 'ceil', 'abs', 'int', 'round2'])
+        f = r.choice(['round', 'floor', 'ceil', 'abs', 'int', 'round2', 'floor', 'ceil'])
         if f == 'round2':
             return 'round(%s, %s)' % (gen_num(e, d - 1), r.choice(['0', '1', '2', '3']))
         return '%s(%s)' % (f, gen_num(e, d - 1))
@@ -249,7 +249,8 @@ def gen_str(e, d):
     if c == 13:
         return '%s | %s' % (gen_str(e, d - 1), r.choice(['upper', 'lower', 'strip', 'str', 'reversed']))
     if c == 14:
-        return '%s.%s' % (gen_str(e, d - 1), r.choice(['upper()', 'lower()', 'strip()', 'replace("a", "o")', 'strip("a")']))
+        return '%s.%s' % (gen_str(e, d - 1), r.choice(['upper()', 'lower()', 'strip()', 'replace("a", "o")', 'strip("a")', 'replace("l", "L", 1)', 'replace("o", "0", 0)', 'replace("l", "", 2)',
+                                                      'strip(" H")', 'strip("")' if False else 'strip("dl")']))
     return 'str(%s)' % gen_num(e, d - 1)
 
 
@@ -319,6 +320,7 @@ def gen_list(e, et, d):
         return '%s[%s]' % (gen_list(e, et, d - 1), r.choice(['1:', ':2', '::2', '::-1', '1:3', ':-1', '-2:', '0.5:2.9', ':', '1::', ':2:', '::1', ':0', '0:', '2:0', '0:0', ':0.4', '::0', ':len([])', '1:(1 - 1)', '0:1', '-1:0']))
     if c == 11 and et == 'str':
         return r.choice(['keys(%s)' % gen_dict(e, 'num', d - 1), 'split(%s, %s)' % (gen_str(e, d - 1), r.choice(['","', '" "', '"a"'])), 'split(%s)' % gen_str(e, d - 1),
+                         'split(%s, %s, %s)' % (gen_str(e, d - 1), r.choice(['","', '" "', '"l"']), r.choice(['1', '2', '0', '-1', '1.0'])),
                          'match_all(%s, %s)' % (gen_str(e, d - 1), r.choice(['"[a-z]"', '"l+"', '"\\\\d+"']))])
     if c == 12:
         return 'values(%s)' % gen_dict(e, et, d - 1)
